@@ -630,7 +630,11 @@ class Check:
                 msg = "oracle crashed: %r" % (e,)
             if msg:
                 oracle_fail.append((i, msg))
-            t = self.coq(c, o)
+            try:
+                t = self.coq(c, o)
+            except Exception as e:      # the observation has a shape the model term cannot be written for: that is a disagreement, not a crash of the check
+                t = "false"
+                self.term_errors = getattr(self, "term_errors", []) + ["%s: %r" % (case_hash(c), e)]
             if t is None:
                 continue
             if isinstance(t, tuple):          # (prelude, agreement term, {name: auxiliary model verdict})
@@ -685,7 +689,10 @@ class Check:
         # oracles also run when the build is broken
         if not ok_build:
             for i, (c, o) in enumerate(results):
-                msg = self.on_exception(c, o) if "exception" in o else self.oracle(c, o)
+                try:
+                    msg = self.on_exception(c, o) if "exception" in o else self.oracle(c, o)
+                except Exception as e:
+                    msg = "oracle crashed: %r" % (e,)
                 if msg:
                     j["oracle_fail"].append((i, msg))
         # 2. direct violations of the property text on the implementation
@@ -822,7 +829,10 @@ class Check:
             for c in self.gen(200):
                 n += 1
                 o = self.safe_run(c)
-                msg = self.on_exception(c, o) if "exception" in o else self.oracle(c, o)
+                try:
+                    msg = self.on_exception(c, o) if "exception" in o else self.oracle(c, o)
+                except Exception as e:
+                    msg = "oracle crashed: %r" % (e,)
                 if msg and not self.known(c, o, msg):
                     c2, o2 = self.shrink(c, o, msg)
                     return ((c2, o2, msg), None, n)
